@@ -626,8 +626,17 @@ H("C03", "patch", "c03_apply_second_target_info_wins", bounds="T(win32), T(ps4),
 _APH = dict(_AP); _APH["unwind"] = 1040; _APH["timeout"] = 3600
 for n, d in (("dat_version", "dat1, version header -> first KiB"), ("index_data", "index file (file number 0), data header -> second KiB"), ("index2_index", "index2 file, index header -> second KiB")):
     H("C03", "patch", "c03_apply_header_update_" + n, bounds=_APB + "H: " + d + " of a 2048-byte file, 1024 header bytes symbolic", **_APH)
+# C15: the file names patching writes (closures inside ZiPatch::apply) agree with Repository::{dat,index,index2}_filename at these instances
+H("C15", "patch", "c03_apply_expand_data", bounds=_APB + "E creates /g/sqpack/ex1/0a0102.ps4.dat3: category, expansion, chunk, platform tag and data-file number as the read side names them", **_AP)
+H("C15", "patch", "c03_apply_header_update_index2_index", bounds=_APB + "H on /g/sqpack/ex2/0a0200.win32.index2", **_APH)
 for n in ("without_eof_is_an_error", "cut_mid_command_is_an_error"):
     H("C17", "patch", "c17_apply_patch_" + n, bounds="patch T + D " + n.replace("_", " ") + " (concrete bytes): ZiPatch::apply returns Err", **_AP)
+
+_CR = dict(_AP); _CR["unwind"] = 70
+_CR["encodes"] = ["patch::ZiPatch::create", "patch::recurse", "patch::PatchChunk (BinWrite / BinRead)", "sqpack::write_data_block_patch", "sqpack::read_data_block_patch"]
+for n, d in (("file_only_in_new", "added: one add-file command with the new content, no delete"), ("file_only_in_old", "removed: one delete-file command"),
+             ("file_in_both", "present in both trees with different contents: rewritten with the new content and NOT deleted")):
+    H("C04", "patch", "c04_create_" + n, bounds="trees /a and /b with one file each (names, sizes 3 / 4 concrete; contents symbolic), file x " + d + "; neither tree is modified", **_CR)
 
 # C07: MDL::write_to_buffer on a directly constructed minimal version-5 model (thorough: 15-17 min each, symbolic execution dominated)
 _WB = ["model::MDL::write_to_buffer", "model::ModelFileHeader (BinWrite)", "model::ModelData (BinWrite)", "model_vertex_declarations::vertex_element_writer",
